@@ -537,14 +537,21 @@ sexp sexp_thread_list (sexp ctx, sexp self, sexp_sint_t n) {
 }
 
 sexp sexp_string_contains (sexp ctx, sexp self, sexp_sint_t n, sexp x, sexp y, sexp start) {
-  const char *res;
+  sexp_sint_t i, xlen, ylen;
   sexp_assert_type(ctx, sexp_stringp, SEXP_STRING, x);
   sexp_assert_type(ctx, sexp_stringp, SEXP_STRING, y);
   sexp_assert_type(ctx, sexp_string_cursorp, SEXP_STRING_CURSOR, start);
-  if (sexp_unbox_string_cursor(start) > sexp_string_size(x))
+  if (sexp_unbox_string_cursor(start) < 0
+      || sexp_unbox_string_cursor(start) > (sexp_sint_t)sexp_string_size(x))
     return sexp_user_exception(ctx, self, "string-contains: start out of range", start);
-  res = strstr(sexp_string_data(x) + sexp_unbox_string_cursor(start), sexp_string_data(y));
-  return res ? sexp_make_string_cursor(res-sexp_string_data(x)) : SEXP_FALSE;
+  /* search within the sizes of the two strings: they may contain NUL */
+  /* characters and need not be followed by one */
+  xlen = sexp_string_size(x);
+  ylen = sexp_string_size(y);
+  for (i = sexp_unbox_string_cursor(start); i + ylen <= xlen; i++)
+    if (memcmp(sexp_string_data(x) + i, sexp_string_data(y), ylen) == 0)
+      return sexp_make_string_cursor(i);
+  return SEXP_FALSE;
 }
 
 sexp sexp_string_cursor_copy (sexp ctx, sexp self, sexp_sint_t n, sexp dst, sexp sfrom, sexp src, sexp sstart, sexp send) {
